@@ -46,7 +46,7 @@ def eofAdjust (t : FText) (s : Pos) (lastLine : Nat) (e : Pos) : Except TextErr 
         if ¬ (s.line < e.line) then throw .assertion
         else do
           let lp ← t.lineAt (e.line - 1)
-          if !endsWithBackslash lp then pure ⟨e.line, 1⟩ else pure e
+          if !endsWithBackslash lp || isCommentOrBlank lp then pure ⟨e.line, 1⟩ else pure e
       else pure e
     else pure e
   else pure e
